@@ -18,7 +18,7 @@ def sh(cmd, **kw):
 
 
 def main():
-    ids = sys.argv[1:] or sorted(os.listdir(os.path.join(ROOT, 'seeded')))
+    ids = sys.argv[1:] or sorted(d for d in os.listdir(os.path.join(ROOT, 'seeded')) if os.path.isdir(os.path.join(ROOT, 'seeded', d)))
     assert sh('git -C /repo status --porcelain').stdout.strip() == '', '/repo is not clean'
     for sid in ids:
         d = os.path.join(ROOT, 'seeded', sid)
